@@ -567,7 +567,8 @@ def flow_case(g: "Gen") -> dict:
     rng = g.rng
     pat = rng.choice(["use_before_create", "create_and_require_same", "delete_then_require", "delete_recreate_require",
                       "type_across_ctx", "type_after_passthrough", "sweep_key_downstream", "default_shadowed",
-                      "from_context_chain", "none_valued_key", "plain", "from_context_named_like_swept_param"])
+                      "from_context_chain", "none_valued_key", "plain", "from_context_named_like_swept_param",
+                      "rewritten_key_consumed"])
     src = {"processor": "VSrc", "parameters": {"value": g.val()}}
     key = rng.choice(["factor", "addend", "a", "scale", "offset"])
     consumer = {"factor": {"processor": "VMul"}, "addend": {"processor": "VAdd"}, "a": {"processor": "VAffine"},
@@ -581,7 +582,21 @@ def flow_case(g: "Gen") -> dict:
     filler = lambda: rng.choice([{"processor": "VAddDefault"}, {"processor": "VMulDefault"},
                                  {"processor": "VNullSink"}, {"processor": "FloatSquareOperation"}])  # noqa: E731
     nodes: list
-    if pat == "use_before_create":
+    if pat == "rewritten_key_consumed":
+        # ONE key written by two different nodes with no delete in between (the second writer is not a probe's context_key:
+        # an operation's declared key, a rename onto a live key, a template onto its own input), then consumed: the
+        # consumer's value comes from the LAST writer
+        first_w = rng.choice([{"processor": "VValueProbe", "context_key": key}, {"processor": f"rename:{g.fresh('ext')}:{key}"}])
+        second_w = rng.choice([{"processor": f"rename:{g.fresh('ext')}:{key}"}, {"processor": "VCtxScale", "parameters": {"base": g.val()}},
+                               {"processor": "VAddNote"}])
+        if second_w["processor"] == "VCtxScale":
+            first_w = rng.choice([{"processor": "VValueProbe", "context_key": "scaled"}, {"processor": f"rename:{g.fresh('ext')}:scaled"}])
+            consumer = {"processor": "template:'s_{scaled}':label"} if g.chance(0.5) else {"processor": "rename:scaled:kept"}
+        elif second_w["processor"] == "VAddNote":
+            first_w = rng.choice([{"processor": "VValueProbe", "context_key": "note"}, {"processor": f"rename:{g.fresh('ext')}:note"}])
+            consumer = {"processor": "template:'n_{note}':label"} if g.chance(0.5) else {"processor": "rename:note:kept"}
+        nodes = [src, first_w] + [filler() for _ in range(rng.randint(0, 1))] + [second_w] + [filler() for _ in range(rng.randint(0, 1))] + [consumer]
+    elif pat == "use_before_create":
         nodes = [src] + [filler() for _ in range(rng.randint(0, 2))] + [consumer] + [filler() for _ in range(rng.randint(0, 1))] + [producer]
     elif pat == "create_and_require_same":
         k2 = rng.choice(["x", "label", key])
